@@ -221,7 +221,7 @@ posting's key is in the ordered key set unless the thread that created the posti
 `postings.entry` section and its btree section; a key of the ordered set has a posting unless the
 thread whose `remove_if` dropped the posting is before its btree section. At quiescence the two
 agree exactly. -/
-theorem btree_postings_bijection_sched (sh : Shared) (progs : List (List Op)) (hc : Clean sh) (s : List Nat) :
+theorem btree_postings_bijection_sched (sh : Shared) (progs : List (List BTreeConc.Op)) (hc : Clean sh) (s : List Nat) :
     let c := Sched.runSchedule step s (initCfg sh progs)
     (∀ k p, pget c.sh.post k = some p → k ∈ c.sh.btree ∨ Any c (willKey · k))
     ∧ (∀ k, k ∈ c.sh.btree → (∃ p, pget c.sh.post k = some p) ∨ Any c (willUnkey · k))
@@ -244,15 +244,15 @@ duplicate-free, has its key in the ordered key set and **is listed by the bucket
 (`posting.0`), which is exactly what `serialize_bucket_snapshot` writes; in between, a non-empty
 posting is listed by its owner or an insert is about to list it there (except inside a
 compaction's rebuild, during which every other thread is outside the gate). -/
-theorem no_lost_posting_sched (sh : Shared) (progs : List (List Op)) (hc : Clean sh) (s : List Nat) :
+theorem no_lost_posting_sched (sh : Shared) (progs : List (List BTreeConc.Op)) (hc : Clean sh) (s : List Nat) :
     let c := Sched.runSchedule step s (initCfg sh progs)
     (Quiescent c → ∀ k p, pget c.sh.post k = some p →
         p.ids ≠ [] ∧ p.ids.Nodup ∧ (p.bucket, k) ∈ c.sh.listed ∧ k ∈ c.sh.btree)
     ∧ (Any c (fun th => th.pc = PC.cmp2) ∨
         ∀ k p, pget c.sh.post k = some p → p.ids ≠ [] →
           (p.bucket, k) ∈ c.sh.listed ∨ Any c (willList · k p.bucket))
-    ∧ (∀ (i : Nat) (th : Thread), c.threads[i]? = some th → th.pc.isCmp = true →
-        ∀ (j : Nat) (th' : Thread), c.threads[j]? = some th' → j ≠ i → th'.pc = PC.idle) := by
+    ∧ (∀ (i : Nat) (th : BTreeConc.Thread), c.threads[i]? = some th → th.pc.isCmp = true →
+        ∀ (j : Nat) (th' : BTreeConc.Thread), c.threads[j]? = some th' → j ≠ i → th'.pc = PC.idle) := by
   intro c
   have hi : Inv c := inv_sched sh progs hc s
   refine ⟨fun hq k p hp => ?_, hi.listedI, hi.excl⟩
@@ -275,7 +275,7 @@ theorem no_lost_posting_sched (sh : Shared) (progs : List (List Op)) (hc : Clean
         obtain ⟨_, s', b, hb⟩ := hw; rw [e] at hb; cases hb))
 
 /-- A unique index never holds two ids under one key, in any configuration under any schedule. -/
-theorem unique_enforced_sched (sh : Shared) (progs : List (List Op)) (hc : Clean sh) (hu : sh.unique = true)
+theorem unique_enforced_sched (sh : Shared) (progs : List (List BTreeConc.Op)) (hc : Clean sh) (hu : sh.unique = true)
     (s : List Nat) (k : Int) (p : Posting)
     (hp : pget (Sched.runSchedule step s (initCfg sh progs)).sh.post k = some p) : p.ids.length ≤ 1 :=
   (inv_sched sh progs hc s).uniq (by rw [unique_sched]; exact hu) k p hp
@@ -286,7 +286,7 @@ linearisation actions** (`insert`: the `postings.entry` section, `remove`: the `
 the initial pair set; on a non-unique index every one of them had, at that place, exactly the effect
 the sequential operation has there (an insert adds its pair iff absent, a remove drops it iff
 present). -/
-theorem conc_result_is_sequential (sh : Shared) (progs : List (List Op)) (hc : Clean sh)
+theorem conc_result_is_sequential (sh : Shared) (progs : List (List BTreeConc.Op)) (hc : Clean sh)
     (r0 : List (Int × Nat)) (hr : ∀ k d, (k, d) ∈ r0 ↔ Pairs sh k d) (s : List Nat) :
     let c := Sched.runSchedule step s (initCfg sh progs)
     (∀ k d, Pairs c.sh k d ↔ (k, d) ∈ applyHist r0 c.hist)
